@@ -146,6 +146,7 @@ func (c *Channel) Open() (reterr error) {
 	c.readLoopDone = make(chan struct{})
 
 	go c.read()
+	verifhook.Point("spawn.chan.read")
 
 	if c.AuthBypass {
 		c.l.Debug("auth bypass is enabled, skipping in channel auth check")
